@@ -127,7 +127,7 @@ def run(pid, tier='quick', seed=None, replay=None):
                                                  error=str(e)[-3000:], config=cfg)))
                 continue
             try:
-                env = {'ASAN_OPTIONS': 'detect_leaks=0:abort_on_error=0:exitcode=99', 'UBSAN_OPTIONS': 'print_stacktrace=1:exitcode=99', 'TSAN_OPTIONS': 'exitcode=66'} if san else None
+                env = {'ASAN_OPTIONS': 'detect_leaks=0:abort_on_error=0:exitcode=99:allocator_may_return_null=1', 'UBSAN_OPTIONS': 'print_stacktrace=1:exitcode=99', 'TSAN_OPTIONS': 'exitcode=66'} if san else None
                 if cfg_env:
                     env = dict(env or {}, **cfg_env)
                 res = core.correspond(bld, lines, harness_args=hargs, env=env)
